@@ -542,7 +542,7 @@ func c33Scenarios(thorough bool) []*explore.Scenario {
 func init() {
 	register(&Prop{ID: "C33", Level: "exploration", Variant: "A", Scenarios: c33Scenarios,
 		Run: func(c *explore.Check, thorough bool) {
-			c.Rule = "6 clients (Chrome_Auto, Chrome_112_PSK_Shuf, Firefox_120, iOS_14, Chrome_58, Golang) x 8 server flights (TLS 1.3 full / HRR+cookie / resumed / CompressedCertificate mutated after and before compression / ALPS+client auth, TLS 1.2 full / resumed; NewSessionTicket messages included) x every server handshake message x mutation {every byte position (all for messages <= 300 B, else head/stride/tail) x values {00, ff, ^01 (+7f, 80 thorough)}, body truncated to every length, header length {0,-1,+1,max}, duplicated, dropped, extra message of type 8/25/4/24/254/2/11 before/after, Certificate replaced by a well-formed message with a degenerate list (empty, one empty entry, one 1-byte entry, good + empty entry)}, applied before encryption by the verif hook; raw layer: each of the first five record-header bytes x 256 values, records of 0/16385/18433 B, 40 empty records; allocation measured under CompressedCertificate / Certificate length lies; after a completed handshake at TLS 1.2/1.1/1.0: 14 clients x Config.Renegotiation {as the spec leaves it, Never, OnceAsClient, FreelyAsClient} x 12 out-of-turn server answers (HelloRequest followed by: nothing, the replayed first flight, a ServerHello selecting TLS 1.3 with and without a TLS 1.3 suite and key share, a HelloRetryRequest, a second HelloRequest, a TLS 1.1 ServerHello, Finished, NewSessionTicket, Certificate, a no_renegotiation alert, application data) x sent once or twice, all under the connection's real keys; three Reads. Oracle: Handshake and the following Read return (watchdog 60 s vs. milliseconds), no panic, bounded allocation. distinct = case"
+			c.Rule = "6 clients (Chrome_Auto, Chrome_112_PSK_Shuf, Firefox_120, iOS_14, Chrome_58, Golang) x 8 server flights (TLS 1.3 full / HRR+cookie / resumed / CompressedCertificate mutated after and before compression / ALPS+client auth, TLS 1.2 full / resumed; NewSessionTicket messages included) x every server handshake message x mutation {every byte position (all for messages <= 300 B, else head/stride/tail) x values {00, ff, ^01 (+7f, 80 thorough)}, body truncated to every length, header length {0,-1,+1,max}, duplicated, dropped, extra message of type 8/25/4/24/254/2/11 before/after, Certificate replaced by a well-formed message with a degenerate list (empty, one empty entry, one 1-byte entry, good + empty entry)}, applied before encryption by the verif hook; raw layer: each of the first five record-header bytes x 256 values, records of 0/16385/18433 B, 40 empty records; allocation measured under CompressedCertificate / Certificate length lies; after a completed handshake at TLS 1.2/1.1/1.0: 16 clients x Config.Renegotiation {as the spec leaves it, Never, OnceAsClient, FreelyAsClient} x 13 out-of-turn server answers (HelloRequest followed by: nothing, the replayed first flight, a ServerHello selecting TLS 1.3 with and without a TLS 1.3 suite and key share, a HelloRetryRequest, a second HelloRequest, a TLS 1.1 ServerHello, Finished, NewSessionTicket, Certificate, a no_renegotiation alert, application data, a well-behaved renegotiation flight with the correct renegotiation_info) x sent once or twice x (at TLS 1.2) what the client brought {nothing, a TLS 1.2 session it resumed, a TLS 1.3 session offered as PSK to this TLS 1.2 server, a session injected without certificates}, all under the connection's real keys; three Reads. Oracle: Handshake and the following Read return (watchdog 60 s vs. milliseconds), no panic, bounded allocation. distinct = case"
 			c.Assumptions = []string{"small-scope: one mutation per execution from a fixed value menu; a crash needing several coordinated edits is outside the explored space", "'returns within the deadline' is decided as 'returns once the transport reports that no more bytes will come'"}
 			runAll(c, c33Scenarios(thorough), 0)
 			c.Gate(c.Total.Counters["outcome_error"] > 10000, "non-vacuity: %d rejected mutations", c.Total.Counters["outcome_error"])
